@@ -7,7 +7,7 @@
    makes, how it ends (Return | SysExit | KbdInt | ExcOther), the names it binds
    itself.  `render` is show_text (Channels / C10), `rstrip` str.rstrip, `dump`
    pickle.dump, `get_stats` the snapshot of a profiler object.  `lprun_gen fixed`
-   is the magic; `lprun` = the current tree (`fixed` = false, see
+   is the magic; `lprun` = the current tree (`fixed` = true since /repo 350dbfa, see
    Lprun.tree_deletes_inserted_profile). *)
 From Coq Require Import QArith.
 From LP Require Import Prelude.Py Report.Channels Report.Lprun Report.LprunProofs.
@@ -105,44 +105,33 @@ Section C20.
       ns (fst (lprun_gen fixed a st s)) = (if reaches a then s_binds st else []) ++ ns s.
   Proof. exact (namespace_as_found text render rstrip bytes dump get_stats). Qed.
 
-  (* builtins, positive half (current tree): over any sequence of invocations, if a
-     builtin `profile` existed before, exactly that object is there afterwards. *)
-  Theorem C20_builtins_restored_when_had :
-    forall xs (s : session) x,
-      b_profile s = Some x ->
-      b_profile (fst (run_seq tree_deletes_inserted_profile xs s)) = Some x.
-  Proof. exact (builtins_restored_when_had text render rstrip bytes dump get_stats). Qed.
-
-  (* builtins, the full statement, holds of the REPAIRED machine (switch = true): *)
-  Theorem C20_builtins_restored_repaired :
-    forall xs (s : session), b_profile (fst (run_seq true xs s)) = b_profile s.
-  Proof. exact (seq_builtins_fixed text render rstrip bytes dump get_stats). Qed.
-
-  (* ...and on the current tree, without a prior builtin `profile`, the first invocation
-     that gets past option handling leaves its profiler behind, for the rest of the session. *)
-  Theorem C20_builtins_leak_persists :
+  (* builtins as found: over ANY sequence of invocations (whatever their options,
+     statements and outcomes, UsageError / TypeError / propagated exceptions included)
+     builtins.__dict__.get("profile") is afterwards what it was before - absent if it
+     was absent, the same object if there was one.  (Current tree, since 350dbfa.) *)
+  Theorem C20_builtins_restored :
     forall xs (s : session),
-      b_profile s = None ->
-      b_profile (fst (run_seq tree_deletes_inserted_profile xs s)) = first_reaching xs (next_id s).
-  Proof. exact (seq_builtins_leak text render rstrip bytes dump get_stats). Qed.
+      b_profile (fst (run_seq tree_deletes_inserted_profile xs s)) = b_profile s.
+  Proof. exact (builtins_restored text render rstrip bytes dump get_stats). Qed.
+
+  (* the half that never depended on the repair *)
+  Theorem C20_builtins_restored_when_had :
+    forall fixed xs (s : session) x,
+      b_profile s = Some x -> b_profile (fst (run_seq fixed xs s)) = Some x.
+  Proof. exact (builtins_restored_when_had text render rstrip bytes dump get_stats). Qed.
 End C20.
 
-(* C20_builtins_restored, full strength, is FALSE of the current tree: *)
-Theorem C20_builtins_leak_refuted :
-  exists (a : args) (st : stmt) (s : session unit unit),
-    b_profile s = None
-    /\ b_profile (fst (lprun unit (fun _ _ => tt) (fun t => t) unit (fun _ => tt)
-                             (fun _ => Snap [] (FUnit 1 (1 # 1000000000))) a st s)) <> b_profile s.
-Proof. exact builtins_restored_refuted. Qed.
-
-(* the witness, spelled out: `%lprun -r -f f f(3)` (statement also calls an unnamed g) *)
-Theorem C20_builtins_leak_witness :
+(* A concrete session: `%lprun -r -f f f(3)` (the statement also calls an unnamed g)
+   without a prior builtin `profile` ends without one; the same run on the machine
+   without the else-branch (the tree before 350dbfa) leaves the magic's profiler there,
+   i.e. the repair is necessary - this is what the check reports if it is reverted. *)
+Theorem C20_builtins_witness :
   b_profile w_sess = None
   /\ reaches w_args = true
-  /\ b_profile (fst w_run) = Some 100
-  /\ b_profile (fst w_run) <> b_profile w_sess
-  /\ r_kind (snd w_run) = KDone.
-Proof. exact builtins_leak_witness. Qed.
+  /\ r_kind (snd w_run) = KDone
+  /\ b_profile (fst w_run) = None
+  /\ b_profile (fst w_run_unrepaired) = Some 100.
+Proof. exact builtins_witness. Qed.
 
 Theorem C20_nonvacuous :
   reaches e_args = true
